@@ -818,7 +818,7 @@ impl ParserListener for Screen {
     }
 
     fn cursor_to_column(&mut self, character: Option<u32>) {
-        self.cursor.x = character.unwrap_or(1) - 1;
+        self.cursor.x = character.map(|a| if a > 0 { a } else { 1 }).unwrap_or(1) - 1;
         self.ensure_hbounds();
     }
 
@@ -1023,7 +1023,7 @@ impl ParserListener for Screen {
     /// # Parameters
     /// - `line`: Line number to move the cursor to.
     fn cursor_to_line(&mut self, line: Option<u32>) {
-        self.cursor.y = line.unwrap_or(1) - 1;
+        self.cursor.y = line.map(|a| if a > 0 { a } else { 1 }).unwrap_or(1) - 1;
 
         // If origin mode (DECOM) is set, line numbers are relative to
         // the top scrolling margin.
